@@ -459,6 +459,12 @@ class C09(Prop):
                 res.nontrivial(case)
             res.distribution["strict=" + ("ok" if s_ok else "reject")] += 1
             res.distribution["escape=" + ("1" if bs else "0")] += 1
+            # the block model of the copying decoder next to the scalar one (proved equal as views: parseStringRaw_eq)
+            for fb, fs in (("m.blk", "m.blkS"), ("m.blkl", "m.blklS")):
+                if fb in M:
+                    res.distribution["string-block-model:" + M[fb][:1]] += 1
+                    if M[fb] != M.get(fs):
+                        res.model_disagreements.append(dict(key="c09:block-decoder-model-vs-scalar-model", case=case, detail=f"{fb} {M[fb][:80]} {fs} {str(M.get(fs))[:80]}"))
             # model self-consistency (the theorem decode_correct, observed)
             mv = M["m.strict"]
             mview = ":".join(mv.split(":")[:3]) if mv.startswith("S:") else "R"
